@@ -18,9 +18,16 @@
 //! `load_ulps` = largest distance in units in the last place between a number of the saved object
 //! and of the object deserialised *without* init() (serde level), INF on structural mismatch.
 //!
-//! Descriptor: {"kind":K, "sched":["step"|"yaml"|"json"|"bin"..], "scale":"toy"|"real",
-//!              "pre":steps before the schedule, "dem":[eighths of the published maximum..],
-//!              "p":{builder parameters}, "via":"mem"|"file"|"mix"}
+//! Descriptor: {"kind":K, "sched":["step"|"yaml"|"json"|"bin" | [action, medium]..], "scale":"toy"|"real",
+//!              "size":"small"|"large", "pre":steps before the schedule (default: what the size class means),
+//!              "dem":[eighths of the published maximum..], "p":{builder parameters},
+//!              "via":"mem"|"file"|"over"|"reader"|"alias"|"mix" (medium of the entries that name none)}
+//! Media (Checkpoint.tla): "mem" to_str/from_str, to_bincode/from_bincode; "reader" the same bytes through
+//! from_reader; "file" to_file/from_file at a fresh path; "alias" another advertised spelling of the format (yml, YAML,
+//! .json, BIN.. as extension or format string); "over" to_file/from_file at the case's re-used path, which holds the
+//! document of the object at the END of the checkpoint-free run (written with to_file before the first "over" of a
+//! format). SaveLoad lines also carry bytes (file length after the write / serialised length), prev (file length
+//! before the write), mem_bytes / mem_ok / dm (length, outcome, digest of the same object round-tripped in memory).
 use altrios_core::consist::locomotive::locomotive_model::PowertrainType;
 use altrios_core::consist::locomotive::loco_sim::LocomotiveSimulationVec;
 use altrios_core::consist::LocoTrait;
@@ -76,22 +83,84 @@ fn debug() -> bool {
 
 type Staged<T> = Result<T, (&'static str, anyhow::Error)>;
 
-fn rt_once<T: SerdeAPI>(x: &T, fmt: &str, via: &str) -> Staged<T> {
-    if via == "file" {
-        let p = tmp_path(fmt);
-        let w = x.to_file(&p).map_err(|e| ("ser", e));
-        let r = match w {
-            Ok(()) => T::from_file(&p).map_err(|e| ("de", e)),
-            Err(e) => Err(e),
-        };
-        let _ = std::fs::remove_file(&p);
-        r
-    } else if fmt == "bin" {
-        let b = x.to_bincode().map_err(|e| ("ser", e))?;
-        T::from_bincode(&b).map_err(|e| ("de", e))
-    } else {
-        let s = x.to_str(fmt).map_err(|e| ("ser", e))?;
-        <T as SerdeAPI>::from_str(&s, fmt).map_err(|e| ("de", e))
+/// what one trip moved: serialised length, and the length of the file the document was written onto ("over")
+#[derive(Default, Clone, Copy)]
+struct Io {
+    bytes: i64,
+    prev: i64,
+}
+/// the path medium "over" re-uses within a case (one per format)
+fn slot_path(fmt: &str) -> std::path::PathBuf {
+    let d = std::env::temp_dir().join(format!("avh-ckpt-{}", std::process::id()));
+    let _ = std::fs::create_dir_all(&d);
+    d.join(format!("slot.{fmt}"))
+}
+/// the other advertised spellings of a format name
+fn alias_of(fmt: &str, alt: u64) -> &'static str {
+    match (fmt, alt % 3) {
+        ("yaml", 0) => "yml",
+        ("yaml", 1) => "YAML",
+        ("yaml", _) => ".Yml",
+        ("json", 0) => "JSON",
+        ("json", 1) => ".json",
+        ("json", _) => "Json",
+        (_, 0) => "BIN",
+        (_, 1) => ".bin",
+        _ => "Bin",
+    }
+}
+fn flen(p: &std::path::Path) -> i64 {
+    std::fs::metadata(p).map(|m| m.len().min(1 << 29) as i64).unwrap_or(0)
+}
+fn file_trip<T: SerdeAPI>(x: &T, p: &std::path::Path, keep: bool, io: &mut Io) -> Staged<T> {
+    io.prev = flen(p);
+    let w = x.to_file(p).map_err(|e| ("ser", e));
+    io.bytes = flen(p);
+    let r = match w {
+        Ok(()) => T::from_file(p).map_err(|e| ("de", e)),
+        Err(e) => Err(e),
+    };
+    if !keep {
+        let _ = std::fs::remove_file(p);
+    }
+    r
+}
+/// One save + load of `x` through the public SerdeAPI. `via`: "mem" (to_str / from_str, to_bincode / from_bincode),
+/// "reader" (the same bytes read through from_reader), "file" (to_file / from_file at a fresh path), "over" (to_file /
+/// from_file at the re-used path of the case, which already holds a document), "alias" (another advertised spelling of
+/// the format: file extension when `alt` is even, format string of to_str / from_str / from_reader when odd).
+fn rt_once<T: SerdeAPI>(x: &T, fmt: &str, via: &str, alt: u64, io: &mut Io) -> Staged<T> {
+    match via {
+        "file" => file_trip(x, &tmp_path(fmt), false, io),
+        "over" => file_trip(x, &slot_path(fmt), true, io),
+        "alias" if alt % 2 == 0 => file_trip(x, &tmp_path(alias_of(fmt, alt / 2).trim_start_matches('.')), false, io),
+        "alias" | "reader" => {
+            let (f1, f2) = if via == "alias" { (alias_of(fmt, alt / 2), alias_of(fmt, alt / 2 + 1)) } else { (fmt, fmt) };
+            if fmt == "bin" {
+                let b = x.to_bincode().map_err(|e| ("ser", e))?;
+                io.bytes = b.len().min(1 << 29) as i64;
+                T::from_reader(std::io::Cursor::new(b), f2).map_err(|e| ("de", e))
+            } else {
+                let s = x.to_str(f1).map_err(|e| ("ser", e))?;
+                io.bytes = s.len().min(1 << 29) as i64;
+                if via == "alias" {
+                    <T as SerdeAPI>::from_str(&s, f2).map_err(|e| ("de", e))
+                } else {
+                    T::from_reader(std::io::Cursor::new(s.into_bytes()), f2).map_err(|e| ("de", e))
+                }
+            }
+        }
+        _ => {
+            if fmt == "bin" {
+                let b = x.to_bincode().map_err(|e| ("ser", e))?;
+                io.bytes = b.len().min(1 << 29) as i64;
+                T::from_bincode(&b).map_err(|e| ("de", e))
+            } else {
+                let s = x.to_str(fmt).map_err(|e| ("ser", e))?;
+                io.bytes = s.len().min(1 << 29) as i64;
+                <T as SerdeAPI>::from_str(&s, fmt).map_err(|e| ("de", e))
+            }
+        }
     }
 }
 /// deserialisation without init(): the serde level of the same format
@@ -112,7 +181,11 @@ fn errclass(msg: &str) -> &'static str {
         "eof"
     } else if m.contains("invalid value") || m.contains("expected variant index") || m.contains("invalid tag") {
         "tag"
-    } else if m.contains("utf-8") || m.contains("utf8") || m.contains("sizelimit") || m.contains("size limit") {
+    } else if m.contains("sizelimit") || m.contains("size limit") {
+        "limit"
+    } else if m.contains("trailing characters") || m.contains("did not find expected") || m.contains("more than one document") {
+        "trailing"
+    } else if m.contains("utf-8") || m.contains("utf8") {
         "garbage"
     } else {
         "other"
@@ -120,13 +193,27 @@ fn errclass(msg: &str) -> &'static str {
 }
 
 /// Two round trips of `x`; returns the event record and the once-reloaded object.
-fn save_load<T: SerdeAPI + DeserializeOwned + PartialEq>(x: &T, fmt: &str, via: &str) -> (Value, Option<T>) {
+fn save_load<T: SerdeAPI + DeserializeOwned + PartialEq>(x: &T, fmt: &str, via: &str, alt: u64) -> (Value, Option<T>) {
     let t0 = tree(x);
+    let mut io = Io::default();
+    let first = rt_once(x, fmt, via, alt, &mut io);
+    // the same document through memory: what is loaded must not depend on the medium
+    let mut iom = io;
+    let (mem_ok, dm) = if via == "mem" {
+        (first.is_ok(), None)
+    } else {
+        iom = Io::default();
+        match rt_once(x, fmt, "mem", alt, &mut iom) {
+            Ok(v) => (true, Some(dig(&tree(&v)))),
+            Err(_) => (false, None),
+        }
+    };
     let mut ev = json!({"ev":"SaveLoad","fmt":fmt,"via":via,"ok":false,"stage":"","errclass":"","msg":"",
+        "bytes":io.bytes,"prev":io.prev,"mem_bytes":iom.bytes,"mem_ok":mem_ok,"dm":[0,0],
         "d0":dig(&t0),"d1":[0,0],"ok2":false,"d2":[0,0],"eq_orig":false,"eq_again":false,"load_ulps":INF,"again_ulps":INF,
         "raw_ok":false,"skipped":count_skipped(&t0),"nonfinite":count_nonfinite(&t0),"locations":count_locations(&t0),
         "colmis":count_colmis(&t0)});
-    let x1 = match rt_once(x, fmt, via) {
+    let x1 = match first {
         Ok(v) => v,
         Err((stage, e)) => {
             let m = errtxt(&e);
@@ -139,6 +226,7 @@ fn save_load<T: SerdeAPI + DeserializeOwned + PartialEq>(x: &T, fmt: &str, via: 
     ev["ok"] = json!(true);
     let t1 = tree(&x1);
     ev["d1"] = dig(&t1);
+    ev["dm"] = dm.unwrap_or_else(|| dig(&t1));
     ev["eq_orig"] = json!(*x == x1);
     if let Ok(raw) = raw_load(x, fmt) {
         ev["raw_ok"] = json!(true);
@@ -149,7 +237,7 @@ fn save_load<T: SerdeAPI + DeserializeOwned + PartialEq>(x: &T, fmt: &str, via: 
             ev["diff_raw"] = json!(diff_of(&t0, &tr));
         }
     }
-    match rt_once(&x1, fmt, via) {
+    match rt_once(&x1, fmt, via, alt + 1, &mut Io::default()) {
         Ok(x2) => {
             ev["ok2"] = json!(true);
             let t2 = tree(&x2);
@@ -404,10 +492,42 @@ impl Subj {
         }
     }
 
-    fn save_load(&mut self, fmt: &str, via: &str) -> Value {
+    /// writes the whole object to `path` with to_file (the document a re-used path already holds)
+    fn write_file(&self, path: &std::path::Path) -> anyhow::Result<()> {
+        match self {
+            Subj::Comp(l, c) => match (*c, &l.loco_type) {
+                (Comp::Fc, PowertrainType::ConventionalLoco(x)) => x.fc.to_file(path),
+                (Comp::Gen, PowertrainType::ConventionalLoco(x)) => x.gen.to_file(path),
+                (Comp::Edrv, PowertrainType::ConventionalLoco(x)) => x.edrv.to_file(path),
+                (Comp::Edrv, PowertrainType::BatteryElectricLoco(x)) => x.edrv.to_file(path),
+                (Comp::Res, PowertrainType::BatteryElectricLoco(x)) => x.res.to_file(path),
+                _ => anyhow::bail!("component not present"),
+            },
+            Subj::Loco(x) => x.to_file(path),
+            Subj::Con(x) => x.to_file(path),
+            Subj::LocoSim(x) => x.to_file(path),
+            Subj::LocoSimVec(x) => x.to_file(path),
+            Subj::ConSim(x) => x.to_file(path),
+            Subj::Sss(x) => x.to_file(path),
+            Subj::Slts(x) => x.to_file(path),
+            Subj::Tpc(x, _) | Subj::TpcFin(x) => x.to_file(path),
+            Subj::Pt(x) => x.to_file(path),
+            Subj::St(x) => x.to_file(path),
+            Subj::Tc(x) => x.to_file(path),
+            Subj::Tsb(x, _) => x.to_file(path),
+            Subj::Net(x, _, _) => x.to_file(path),
+            Subj::Etn(x) => x.to_file(path),
+            Subj::Loc(x) => x.to_file(path),
+            Subj::Tlp(x) => x.to_file(path),
+            Subj::Rv(x) => x.to_file(path),
+            Subj::Lp(x) => x.to_file(path),
+        }
+    }
+
+    fn save_load(&mut self, fmt: &str, via: &str, alt: u64) -> Value {
         macro_rules! sl {
             ($x:expr) => {{
-                let (ev, n) = save_load(&*$x, fmt, via);
+                let (ev, n) = save_load(&*$x, fmt, via, alt);
                 if let Some(n) = n {
                     *$x = n;
                 }
@@ -423,7 +543,8 @@ impl Subj {
                 (Comp::Res, PowertrainType::BatteryElectricLoco(x)) => sl!(&mut x.res),
                 _ => json!({"ev":"SaveLoad","fmt":fmt,"via":via,"ok":false,"stage":"harness","errclass":"other",
                     "msg":"component not present","d0":[0,0],"d1":[0,0],"ok2":false,"d2":[0,0],"eq_orig":false,
-                    "eq_again":false,"load_ulps":INF,"again_ulps":INF,"raw_ok":false,"skipped":0,"nonfinite":0,"locations":0,"colmis":0}),
+                    "eq_again":false,"load_ulps":INF,"again_ulps":INF,"raw_ok":false,"skipped":0,"nonfinite":0,"locations":0,"colmis":0,
+                    "bytes":0,"prev":0,"mem_bytes":0,"mem_ok":false,"dm":[0,0]}),
             },
             Subj::Loco(x) => sl!(x),
             Subj::Con(x) => sl!(x),
@@ -451,17 +572,20 @@ impl Subj {
 // builders
 
 fn toy_net() -> anyhow::Result<Ctx> {
-    let n = 6;
+    toy_net_n(6)
+}
+/// `n` links in a row (n = 6: the toy corridor; thousands: a network whose documents exceed 1 MiB)
+fn toy_net_n(n: i64) -> anyhow::Result<Ctx> {
     let links: Vec<Value> = (1..=n)
         .map(|k| json!({"len":1024,"prev":k-1,"next": if k < n { k + 1 } else { 0 },
-                        "elevs":[[0, (k-1)*2],[1024, k*2]],
+                        "elevs":[[0, ((k-1)%64)*2],[1024, if k % 64 == 0 { 0 } else { (k%64)*2 }]],
                         "headings":[[0,0],[1024,0]],
                         "rs":[[0,1024,16],[256,512,8]]}))
         .collect();
     let net = build::network(&json!({"oscale":1,"vscale":1,"escale":1,"links":links}))?;
     Ok(Ctx {
         net,
-        route: (1..=n as u32).map(LinkIdx::new).collect(),
+        route: (1..=n.min(6) as u32).map(LinkIdx::new).collect(),
     })
 }
 
@@ -541,10 +665,44 @@ fn speed_trace(n: usize, dv: f64, vmax: f64) -> SpeedTrace {
     SpeedTrace::new((0..=n).map(|k| k as f64).collect(), v, None)
 }
 
+/// the schedule of a case: "step" | format name (medium from the case's "via") | [action, medium] as Checkpoint.tla emits
+fn sched_of(desc: &Value) -> Vec<(String, String)> {
+    ga(desc, "sched")
+        .iter()
+        .map(|x| match x {
+            Value::Array(a) => (
+                a.first().and_then(|v| v.as_str()).unwrap_or("").to_string(),
+                a.get(1).and_then(|v| v.as_str()).unwrap_or("").to_string(),
+            ),
+            v => (v.as_str().unwrap_or("").to_string(), String::new()),
+        })
+        .collect()
+}
+fn is_large(desc: &Value) -> bool {
+    desc.get("size").and_then(|x| x.as_str()) == Some("large")
+}
+/// steps behind the object when the schedule starts: explicit "pre", else what the size class of the kind means
+/// (large = a dense history long enough for every format to exceed 1 MiB)
+fn pre_of(desc: &Value) -> usize {
+    if let Some(p) = desc.get("pre").and_then(|x| x.as_u64()) {
+        return p as usize;
+    }
+    if !is_large(desc) {
+        return 0;
+    }
+    match desc["kind"].as_str().unwrap_or("") {
+        "SetSpeedTrainSim.long" => 620,
+        "SpeedLimitTrainSim.long" => 600,
+        "ConsistSimulation.long" => 1400,
+        "LocomotiveSimulation.long" => 3000,
+        _ => 0,
+    }
+}
+
 /// number of trace samples a toy simulation needs for this case (pre-run + schedule), rounded up so
 /// that cases share built objects
 fn run_len(desc: &Value) -> usize {
-    let pre = desc.get("pre").and_then(|x| x.as_u64()).unwrap_or(0) as usize;
+    let pre = pre_of(desc);
     let n = pre + desc["sched"].as_array().map(|a| a.len()).unwrap_or(0) + 2;
     (n + 63) / 64 * 64
 }
@@ -555,7 +713,7 @@ thread_local! {
 /// Builds (or clones the already built) fresh subject of a case; construction is a pure function
 /// of (kind, scale, p, dem).
 fn build_subject(desc: &Value) -> anyhow::Result<Subj> {
-    let key = json!([desc["kind"], desc.get("scale"), desc.get("p"), desc.get("dem"), run_len(desc)]).to_string();
+    let key = json!([desc["kind"], desc.get("scale"), desc.get("p"), desc.get("dem"), run_len(desc), is_large(desc)]).to_string();
     if let Some(s) = BUILT.with(|b| b.borrow().get(&key).cloned()) {
         return Ok(s);
     }
@@ -755,6 +913,21 @@ fn build_subject_uncached(desc: &Value) -> anyhow::Result<Subj> {
             }
         }
         "SetSpeedTrainSim.default" => Subj::Sss(SetSpeedTrainSim::default()),
+        // kinds with a size class: dense histories (save interval 1) over a run long enough for "large" to exceed 1 MiB
+        "SetSpeedTrainSim.long" => {
+            let mut s = SetSpeedTrainSim::default();
+            s.set_save_interval(Some(1));
+            Subj::Sss(s)
+        }
+        "SpeedLimitTrainSim.long" => {
+            let c = corridor()?;
+            let mut s = c.slts.clone();
+            s.extend_path(c.net.as_ref(), &corridor_route())?;
+            s.set_save_interval(Some(1));
+            Subj::Slts(Box::new(s))
+        }
+        "ConsistSimulation.long" => Subj::ConSim(ConsistSimulation::new(toy_consist(&mut lp)?, pwr_trace(desc, nmax, 16.0), Some(1))),
+        "LocomotiveSimulation.long" => Subj::LocoSim(LocomotiveSimulation::new(conv(&mut lp)?, pwr_trace(desc, nmax, 16.0), Some(1))),
         "SpeedLimitTrainSim" | "SpeedLimitTrainSim.finished" => {
             let mut s = if real {
                 let c = corridor()?;
@@ -835,7 +1008,7 @@ fn build_subject_uncached(desc: &Value) -> anyhow::Result<Subj> {
                 let c = corridor()?;
                 Subj::Net(c.net.clone(), Ctx { net: Network::default(), route: corridor_route() }, real_tc(20)?.make_train_params()?)
             } else {
-                let c = toy_net()?;
+                let c = if is_large(desc) { toy_net_n(4000)? } else { toy_net()? };
                 Subj::Net(c.net.clone(), Ctx { net: Network::default(), route: c.route }, build::train_config(&p)?.make_train_params()?)
             }
         }
@@ -848,9 +1021,9 @@ fn build_subject_uncached(desc: &Value) -> anyhow::Result<Subj> {
 
 fn exec(desc: &Value, tr: &mut Tracer) -> anyhow::Result<()> {
     sweep_stale();
-    let sched: Vec<String> = ga(desc, "sched").iter().map(|x| x.as_str().unwrap_or("").to_string()).collect();
-    let nsteps = sched.iter().filter(|a| *a == "step").count();
-    let pre = desc.get("pre").and_then(|x| x.as_u64()).unwrap_or(0) as usize;
+    let sched = sched_of(desc);
+    let nsteps = sched.iter().filter(|a| a.0 == "step").count();
+    let pre = pre_of(desc);
     let via_mode = desc.get("via").and_then(|x| x.as_str()).unwrap_or("mix");
     let h0 = {
         let mut h = Fnv::new();
@@ -878,7 +1051,9 @@ fn exec(desc: &Value, tr: &mut Tracer) -> anyhow::Result<()> {
     ref_nodes.iter().for_each(|n| scales(n, "", &mut sc));
     tr.emit(json!({"ev":"Ref","traj": ref_nodes.iter().map(dig).collect::<Vec<_>>(), "oks": ref_oks, "msgs": ref_msgs,
                    "start": start_d, "w": dig(&r.whole())}));
-    drop(r);
+    // `r` is now the object at the end of the checkpoint-free run: the checkpoint an earlier run of the same case left
+    // at the re-used path (written there with to_file before the first "over" of a format)
+    let mut prefilled: Vec<String> = vec![];
 
     // the schedule
     let mut s = build_subject(desc)?;
@@ -887,7 +1062,7 @@ fn exec(desc: &Value, tr: &mut Tracer) -> anyhow::Result<()> {
     }
     tr.emit(json!({"ev":"Start","d":dig(&s.obs()),"pre":pre}));
     let mut k = 0usize;
-    for (idx, a) in sched.iter().enumerate() {
+    for (idx, (a, med)) in sched.iter().enumerate() {
         if a == "step" {
             let res = s.step(pre + k, desc);
             let o = s.obs();
@@ -902,9 +1077,12 @@ fn exec(desc: &Value, tr: &mut Tracer) -> anyhow::Result<()> {
             }
             tr.emit(ev);
         } else {
-            let via = match via_mode {
+            let via = match if med.is_empty() { via_mode } else { med.as_str() } {
                 "mem" => "mem",
                 "file" => "file",
+                "over" => "over",
+                "reader" => "reader",
+                "alias" => "alias",
                 _ => {
                     if (h0 >> 7).wrapping_add(idx as u64) % 16 == 0 {
                         "file"
@@ -913,7 +1091,14 @@ fn exec(desc: &Value, tr: &mut Tracer) -> anyhow::Result<()> {
                     }
                 }
             };
-            let ev = s.save_load(a, via);
+            if via == "over" && !prefilled.contains(a) {
+                prefilled.push(a.clone());
+                let _ = std::fs::remove_file(slot_path(a));
+                // (a failing prefill shows as prev = 0 on the SaveLoad line)
+                let _ = r.write_file(&slot_path(a));
+            }
+            let mut ev = s.save_load(a, via, (h0 >> 11).wrapping_add(idx as u64));
+            ev["large"] = json!(is_large(desc));
             tr.emit(ev);
         }
     }
@@ -999,6 +1184,26 @@ fn gen(seed: u64, n: usize, tier: &str) -> Vec<Value> {
                             "sched":[fmt,"step",fmt,"step","step",fmt,"step"]}));
         }
     }
+    // pinned: every kind, every format, written over the longer checkpoint an earlier run left at the same path
+    // (the first save happens 4 steps before the end of that run), and through from_reader / the other spellings
+    for kind in DEEP.iter().chain(SHALLOW.iter()).chain(EXTRA.iter()) {
+        for fmt in ["yaml", "json", "bin"] {
+            out.push(json!({"src":"gen","kind":kind,"scale":"toy","via":"over",
+                            "sched":[fmt,"step",fmt,"step","step",fmt,"step"]}));
+            out.push(json!({"src":"gen","kind":kind,"scale":"toy",
+                            "sched":[[fmt,"reader"],["step","-"],[fmt,"alias"],["step","-"],[fmt,"alias"]]}));
+        }
+    }
+    // pinned: documents above 1 MiB (dense histories late in a run, a 4000-link network) through files and readers
+    for (kind, sched) in [
+        ("SetSpeedTrainSim.long", json!([["bin","file"],["step","-"],["bin","reader"]])),
+        ("ConsistSimulation.long", json!([["step","-"],["bin","over"],["step","-"],["json","over"]])),
+        ("LocomotiveSimulation.long", json!([["bin","alias"],["step","-"],["json","file"]])),
+        ("SpeedLimitTrainSim.long", json!([["json","file"],["step","-"]])),
+        ("Network", json!([["json","over"],["step","-"]])),
+    ] {
+        out.push(json!({"src":"gen","kind":kind,"scale":"toy","size":"large","sched":sched}));
+    }
     // pinned: checkpoints spread over a whole train run (first, middle and last third) on a multi-grade corridor
     for kind in ["SetSpeedTrainSim.grades", "SpeedLimitTrainSim.grades"] {
         for pre in [30, 180, 330, 480, 630] {
@@ -1066,7 +1271,7 @@ fn prof(kind: &str) {
         let t = std::time::Instant::now();
         for _ in 0..n {
             let mut c = s.clone();
-            let _ = c.save_load(f, "mem");
+            let _ = c.save_load(f, "mem", 0);
         }
         println!("sl {f:5}{:8.1} us", t.elapsed().as_micros() as f64 / n as f64);
     }
@@ -1078,8 +1283,35 @@ fn prof(kind: &str) {
     println!("step    {:8.1} us", t.elapsed().as_micros() as f64 / n as f64);
 }
 
+/// `size <kind> <small|large>`: document sizes and file round-trip times (developer aid)
+fn sizes(kind: &str, size: &str) {
+    let desc = json!({"kind":kind,"size":size,"sched":[]});
+    let t = std::time::Instant::now();
+    let mut s = build_subject(&desc).unwrap();
+    let mut nerr = 0;
+    for k in 0..pre_of(&desc) {
+        if s.step(k, &desc).is_err() {
+            nerr += 1;
+        }
+    }
+    println!("build + {} steps ({nerr} err) {:.2} s", pre_of(&desc), t.elapsed().as_secs_f64());
+    for f in ["yaml", "json", "bin"] {
+        for via in ["mem", "file"] {
+            let t = std::time::Instant::now();
+            let mut c = s.clone();
+            let ev = c.save_load(f, via, 0);
+            println!("{f:5} {via:5} ok={} bytes={} mem_bytes={} errclass={} {:.2} s", ev["ok"], ev["bytes"], ev["mem_bytes"], ev["errclass"], t.elapsed().as_secs_f64());
+        }
+    }
+    tmp_cleanup();
+}
+
 fn main() {
     let a: Vec<String> = std::env::args().collect();
+    if a.len() >= 4 && a[1] == "size" {
+        sizes(&a[2], &a[3]);
+        return;
+    }
     if a.len() >= 3 && a[1] == "prof" {
         prof(&a[2]);
         return;
